@@ -28,6 +28,9 @@ let hex_of_bytes (l : n list) : string =
 
 let status_s = function Done -> "done" | NeedInput -> "need" | Corrupt -> "corrupt" | Fuel -> "fuel"
 
+let cerr_s = function CEOF -> "EOF" | CUnexpectedEOF -> "UEOF" | CHeader -> "HEADER" | CChecksum -> "CHECKSUM"
+  | CCorrupt -> "CORRUPT" | CDictionary -> "DICT"
+
 let handle (line : string) : string =
   match String.split_on_char ' ' line with
   | ["I"; dict; data] ->
@@ -59,6 +62,17 @@ let handle (line : string) : string =
     let o = rrun (bytes_of_hex dict) [bytes_of_hex data] t in
     let e = match o.rerror with REOF -> "EOF" | RUnexpectedEOF -> "UEOF" | RCorrupt -> "CORRUPT" | RSrc n -> "SRC" ^ string_of_int (int_of_n n) in
     Printf.sprintf "R %s %s %d" e (hex_of_bytes o.rbytes) (int_of_n o.rconsumed)
+  | ["G"; multi; data] ->
+    (* gzip reader model: G <0|1 multistream> <hex> *)
+    let r = gz_read (multi = "1") (bytes_of_hex data) in
+    Printf.sprintf "G %s %s %d %d %d" (cerr_s r.g_err) (hex_of_bytes r.g_payload) (List.length r.g_left)
+      (List.length r.g_hdrs) (if r.g_at_ctor then 1 else 0)
+  | ["Z"; dict; data] ->
+    (* zlib reader model: Z <dict hex or -, or N for no dictionary> <hex> *)
+    let d = if dict = "N" then None else Some (bytes_of_hex dict) in
+    let r = zl_read d (bytes_of_hex data) in
+    Printf.sprintf "G %s %s %d %d %d" (cerr_s r.g_err) (hex_of_bytes r.g_payload) (List.length r.g_left)
+      0 (if r.g_at_ctor then 1 else 0)
   | _ -> "ERR bad request"
 
 let () =
